@@ -718,9 +718,15 @@ func Generate(g *G, thorough bool, e Emit) {
 	}
 	// 2h. EtherTypes: all 65536 in the thorough tier, a random 3000 otherwise
 	if thorough {
+		// every EtherType x {header only, header + 1..3 bytes, random payload, a valid IPv4/UDP packet as payload}
+		inner := IP4(5, 28+18, 17, []byte{192, 168, 0, 7}, []byte{192, 168, 0, 1}, nil, UDP(4000, 53, r.Bytes(18)))
 		for et := 0; et < 65536; et++ {
 			f := Ether(g.DstMAC(), MACClient1, et, g.Data(30))
 			e(f, g.Spare(len(f), r.Intn(3)), "b.ethertype")
+			f = Ether(g.DstMAC(), MACClient1, et, r.Bytes(r.Intn(4)))
+			e(f, g.Spare(len(f), r.Intn(3)), "b.ethertype.short")
+			f = Ether(g.DstMAC(), MACClient1, et, inner)
+			e(f, g.Spare(len(f), r.Intn(3)), "b.ethertype.valid")
 		}
 	} else {
 		for i := 0; i < 3000; i++ {
